@@ -153,7 +153,7 @@ def nontrivial_of(case, text):
     return True
 
 
-case_st = st.one_of(textmut.mutated_case_st(), textmut.mutated_case_st(), textmut.soup_st())
+case_st = st.one_of(textmut.mutated_case_st(), textmut.mutated_case_st(), textmut.soup_st(), textmut.pp_story_st())
 
 
 class Runner:
